@@ -2197,7 +2197,12 @@ class _TaskInterp(PureInterp):
         # awaiting one of the pool's own coroutines does not suspend: cancellation lands at the innermost real suspension point
         f = n.value.func if isinstance(n.value, ast.Call) else None
         fname = f.attr if isinstance(f, ast.Attribute) else f.id if isinstance(f, ast.Name) else None
-        if fname and fname in self._own_coroutines(module):
+        own = fname and fname in self._own_coroutines(module)
+        if own and isinstance(f, ast.Attribute):
+            # only a method called on the scheduler itself: asyncio.wait_for(...) is the library's, although the Scheduler has a wait_for method too
+            canon = self.index.canon(f, module) or ""
+            own = isinstance(f.value, ast.Name) and f.value.id == "self" and not canon.startswith(("asyncio.", "builtins."))
+        if own:
             return self.eval(n.value, env, module, depth)
         self.awaits += 1
         self.await_log.append(ast.unparse(n.value)[:50])
